@@ -1,5 +1,5 @@
 """Contracts of the helper functions the analysis kernels call (DESIGN.md §6.1, §6.4)."""
-from pyvc.dsl import (contract, requires, ensures, must_fail, And, Or, Not, Implies, If, Iff, Eq, forall, IsInstance,
+from pyvc.dsl import (contract, requires, assumes, ensures, must_fail, And, Or, Not, Implies, If, Iff, Eq, forall, IsInstance,
                       IsNone, IsInt, IsStr, AsInt, AsStr)
 from pyvc.values import T
 from spec.avm_axioms import ev, VAL, NAMED, NAMED_CONSTANTS
@@ -27,7 +27,7 @@ def _ins_sem(ins, v):
     return True
 
 
-requires(c, "sem", lambda ins, v: _ins_sem(ins, v))
+assumes(c, "sem", lambda ins, v: _ins_sem(ins, v))
 ensures(c, "lit_value", lambda ins, result, v: Implies(And(result[0], IsInt(result[1])),
         lambda: And(has_int_lit(ins), Eq(int_lit(ins), AsInt(result[1])),
             VBool(VAL(v.term, ins.term, 0) == AsInt(result[1]).term),
@@ -36,6 +36,23 @@ ensures(c, "lit_named", lambda ins, result, v: Implies(And(result[0], IsStr(resu
         lambda: And(VBool(VAL(v.term, ins.term, 0) == NAMED(AsStr(result[1]).term)),
             Or(*[Eq(AsStr(result[1]), n) for n in NAMED_CONSTANTS]))),
         note="a named constant denotes its assembler value; only the assembler's names occur in valid programs")
+def _imm_value(ins, cname):
+    from pyvc.values import V as _V, VRef
+    if isinstance(ins, _V):
+        from pyvc.dsl import current
+        from pyvc.loader import class_table
+        ex, st = current().ex, current().st
+        C = class_table().cls(cname)
+        val, st2 = ex.read_field(VRef(ins.term, C, ex), C, "_value", st)
+        st.pc[:] = st2.pc
+        return val
+    return ins.value
+
+
+ensures(c, "lit_is_immediate", lambda ins, result: And(
+        Implies(IsInstance(ins, "Int"), lambda: And(result[0], Eq(result[1], _imm_value(ins, "Int")))),
+        Implies(IsInstance(ins, "PushInt"), lambda: And(result[0], Eq(result[1], _imm_value(ins, "PushInt"))))),
+        note="for int / pushint the reported value is the immediate as written (number or name)")
 ensures(c, "push_class", lambda ins, result: Implies(result[0], IsInstance(ins, ("Int", "PushInt", "IntcInstruction"))))
 ensures(c, "lit_exact", lambda ins, result: Iff(has_int_lit(ins), And(result[0], IsInt(result[1]))))
 ensures(c, "none_iff", lambda result: Implies(Not(result[0]), IsNone(result[1])))
